@@ -657,5 +657,8 @@ PROPS["C10"]["rules"] = PROPS["C10"]["rules"] + [rules_attr.rule_xdr_encode_sour
 PROPS["C10"]["explanation"] += " (XDRENC) a local handed to a bidirectional XDR primitive has been loaded from the object being encoded."
 PROPS["C15"]["rules"] = PROPS["C15"]["rules"] + [rules_attr.rule_xdr_encode_source]
 
+PROPS["C03"]["rules"] = PROPS["C03"]["rules"] + [rules_sd.rule_empty_request_tested]
+PROPS["C03"]["explanation"] += " (EMPTYREQ) NCgenio turns a request with a zero count away before its transfer-first odometer loop."
+
 NOT_APPLICABLE = {}
 
